@@ -228,7 +228,7 @@ func runC02(r *Run) {
 	parts := strings.Split(base, ".")
 	segOps := []string{
 		parts[1] + "." + parts[0] + "." + parts[2], parts[0] + "." + parts[1], parts[0] + "." + parts[1] + ".", parts[0] + ".." + parts[2],
-		base + ".", "." + base, base + "." + parts[2], parts[0] + "." + parts[1] + "." + parts[2] + "." + parts[2], ".." , ".", parts[0], " " + base, base + " ", base + "\n",
+		base + ".", "." + base, base + "." + parts[2], parts[0] + "." + parts[1] + "." + parts[2] + "." + parts[2], "..", ".", parts[0], " " + base, base + " ", base + "\n",
 	}
 	for _, s := range segOps {
 		add(s, "segments", "at-valid", false, true)
@@ -247,24 +247,24 @@ func runC02(r *Run) {
 	}
 	// claim edits under the right key
 	edits := map[string]func(m map[string]interface{}){
-		"iss-other":     func(m map[string]interface{}) { m["iss"] = "rdpgw2" },
-		"iss-missing":   func(m map[string]interface{}) { delete(m, "iss") },
-		"iss-case":      func(m map[string]interface{}) { m["iss"] = "RDPGW" },
-		"exp-long-ago":  func(m map[string]interface{}) { m["exp"] = now - 3600 },
-		"exp-63s-ago":   func(m map[string]interface{}) { m["exp"] = now - 63 },
-		"exp-57s-ago":   func(m map[string]interface{}) { m["exp"] = now - 57 },
-		"exp-in-299s":   func(m map[string]interface{}) { m["exp"] = now + 299 },
-		"exp-missing":   func(m map[string]interface{}) { delete(m, "exp") },
-		"exp-far":       func(m map[string]interface{}) { m["exp"] = now + 86400*365 },
-		"nbf-in-63s":    func(m map[string]interface{}) { m["nbf"] = now + 63 },
-		"nbf-in-57s":    func(m map[string]interface{}) { m["nbf"] = now + 57 },
-		"nbf-past":      func(m map[string]interface{}) { m["nbf"] = now - 10 },
-		"iat-in-1h":     func(m map[string]interface{}) { m["iat"] = now + 3600 },
-		"iat-past":      func(m map[string]interface{}) { m["iat"] = now - 10 },
-		"no-accesstok":  func(m map[string]interface{}) { delete(m, "accessToken") },
-		"other-host":    func(m map[string]interface{}) { m["remoteServer"] = "evil:3389" },
-		"exp-string":    func(m map[string]interface{}) { m["exp"] = "tomorrow" },
-		"extra-claims":  func(m map[string]interface{}) { m["aud"] = "x"; m["foo"] = 1 },
+		"iss-other":    func(m map[string]interface{}) { m["iss"] = "rdpgw2" },
+		"iss-missing":  func(m map[string]interface{}) { delete(m, "iss") },
+		"iss-case":     func(m map[string]interface{}) { m["iss"] = "RDPGW" },
+		"exp-long-ago": func(m map[string]interface{}) { m["exp"] = now - 3600 },
+		"exp-63s-ago":  func(m map[string]interface{}) { m["exp"] = now - 63 },
+		"exp-57s-ago":  func(m map[string]interface{}) { m["exp"] = now - 57 },
+		"exp-in-299s":  func(m map[string]interface{}) { m["exp"] = now + 299 },
+		"exp-missing":  func(m map[string]interface{}) { delete(m, "exp") },
+		"exp-far":      func(m map[string]interface{}) { m["exp"] = now + 86400*365 },
+		"nbf-in-63s":   func(m map[string]interface{}) { m["nbf"] = now + 63 },
+		"nbf-in-57s":   func(m map[string]interface{}) { m["nbf"] = now + 57 },
+		"nbf-past":     func(m map[string]interface{}) { m["nbf"] = now - 10 },
+		"iat-in-1h":    func(m map[string]interface{}) { m["iat"] = now + 3600 },
+		"iat-past":     func(m map[string]interface{}) { m["iat"] = now - 10 },
+		"no-accesstok": func(m map[string]interface{}) { delete(m, "accessToken") },
+		"other-host":   func(m map[string]interface{}) { m["remoteServer"] = "evil:3389" },
+		"exp-string":   func(m map[string]interface{}) { m["exp"] = "tomorrow" },
+		"extra-claims": func(m map[string]interface{}) { m["aud"] = "x"; m["foo"] = 1 },
 	}
 	for name, e := range edits {
 		for _, at := range []string{"at-valid", "at-unknown"} {
